@@ -171,7 +171,9 @@ def parseInstr (selectors : List (Bytes × Bytes)) : List String → Except Stri
       | _ => .error s!"{op}: expected one immediate"
     let int1 (k : Int → Instr) : Except String Instr := match imms with
       | [a] => match parseInt a with
-        | some n => .ok (k n) | none => .error s!"bad immediate {a} for {op}"
+        -- a signed one-byte immediate (frame_dig / frame_bury): the assembler refuses anything else
+        | some n => if -128 ≤ n ∧ n ≤ 127 then .ok (k n) else .error s!"immediate {a} of {op} does not fit one signed byte"
+        | none => .error s!"bad immediate {a} for {op}"
       | _ => .error s!"{op}: expected one immediate"
     let lab1 (k : String → Instr) : Except String Instr := match imms with
       | [a] => .ok (k a) | _ => .error s!"{op}: expected a label"
